@@ -105,6 +105,37 @@ def r03_2(ctx, A):
                    'fallback result = %s' % (ast.unparse(flag) if flag is not None else '?'))
 
 
+def r03_2b(ctx, A):
+    """A task's own exception (any BaseException, incl. its own SystemExit) becomes a
+    result: unless the termination handler requested exit, the handler around the
+    task call never re-raises."""
+    fi, cfg = A.fi, A.fi.cfg
+    exit_requested = q.outcome_edges(fi, '_should_have_exited[0]', True)
+    n = 0
+    for tc in A.task_calls:
+        for (tr, part, h0) in q.enclosing_trys(fi, tc):
+            if part != 'body':
+                continue
+            catch_all = [h for h in tr.handlers if q.handler_catches(h, ['SystemExit'])]
+            ctx.ob('R03.2', 'workloop:task-exceptions-all-caught', bool(catch_all), fi, tr,
+                   'the try around the task call catches every exception of the task (BaseException)')
+            for h in tr.handlers:
+                n += 1
+                hn = [x for x in cfg.of(h) if x.kind == 'except']
+                body_ids = {x.id for x in cfg.nodes if x.id in cfg.live and q.inside(fi, x, h.body)}
+                r = set()
+                for s in hn:
+                    r |= cfg.reach([s.id], block_edges=exit_requested, skip_labels=('x',))
+                raises = [cfg.nodes[i] for i in r if i in body_ids and isinstance(cfg.nodes[i].ast, ast.Raise)]
+                ctx.ob('R03.2', 'workloop:task-exception-becomes-result@except-%s' % (
+                    ast.unparse(h.type) if h.type else 'bare'), not raises, fi, raises[0] if raises else h,
+                    'without an exit request the handler never re-raises: the job still gets its one READY'
+                    if not raises else 'a task raising this exception gets no result message (re-raised at `%s`)'
+                    % raises[0].text())
+            break
+    q.need(n, 'Worker.workloop: the task call is not inside a try')
+
+
 def _which(fi, c):
     return 'handler' if any(part == 'handler' for (tr, part, h) in q.enclosing_trys(fi, c)) else 'main'
 
@@ -352,6 +383,7 @@ def run(ctx):
     A = WorkloopAnchors(ctx)
     r03_1(ctx, A)
     r03_2(ctx, A)
+    r03_2b(ctx, A)
     r03_3(ctx, A)
     r03_4(ctx, A)
     r03_5(ctx)
@@ -416,6 +448,10 @@ MUTANTS = [
      "return self._send_ack(ACK, pid, self._job, synqW_fd)", 'R03.5'),
     ('callback-args-swapped', _P, "self._accept_callback(pid, time_accepted)",
      "self._accept_callback(time_accepted, pid)", 'R03.5'),
+    ('task-sysexit-escapes', _P, "                        if (isinstance(exc, SystemExit) and\n                                _should_have_exited[0]):\n",
+     "                        if isinstance(exc, SystemExit):\n", 'R03.2'),
+    ('task-keyboardinterrupt-escapes', _P, "                    except BaseException as exc:\n                        if (isinstance(exc, SystemExit) and",
+     "                    except KeyboardInterrupt:\n                        raise\n                    except BaseException as exc:\n                        if (isinstance(exc, SystemExit) and", 'R03.2'),
     ('dispatch-no-death', _P, "ACK: on_ack, READY: on_ready, DEATH: on_death", "ACK: on_ack, READY: on_ready", 'R03.6'),
     ('ready-arity', _P, "def on_ready(job, i, obj, inqW_fd):", "def on_ready(job, i, obj):", 'R03.6'),
 ]
